@@ -100,14 +100,28 @@ func VerifTwoSystems() {
 // (clock registers of an MBC3 included)
 func VerifTwinFresh() {
 	s1 := newVerifSystem(uint8(vCfg("type")), uint8(vCfg("rom")), uint8(vCfg("ram")))
+	// a first run that has used its cartridge RAM must not change what a second, fresh run finds
+	ra := 0xa000 + vU16("ra")%0x2000
+	s1.m.Write(0x0000, 0x0a)
+	fresh := s1.m.Read(ra)
+	s1.m.Write(ra, vU8("rv"))
+	s1.m.Write(0x0000, 0x00)
+	vTwinGap()
 	s2 := newVerifSystem(uint8(vCfg("type")), uint8(vCfg("rom")), uint8(vCfg("ram")))
+	s2.m.Write(0x0000, 0x0a)
+	vAssert("second-run-starts-fresh", s2.m.Read(ra) == fresh)
+	s2.m.Write(0x0000, 0x00)
+	s1.m.Write(0x0000, 0x0a)
+	s1.m.Write(ra, fresh)
+	s1.m.Write(0x0000, 0x00)
 	a2 := vU16("a2")
 	vAssert("same-readable-state", s1.m.Read(a2) == s2.m.Read(a2))
 	vAssert("same-clock-registers", *s1.m.rtc == *s2.m.rtc)
 	// with RAM enabled, a clock register selected and latched
+	sel := 0x08 + vU8("sel")%5
 	for _, s := range []*verifSystem{s1, s2} {
 		s.m.Write(0x0000, 0x0a)
-		s.m.Write(0x4000, 0x08+vU8("sel")%5)
+		s.m.Write(0x4000, sel)
 		s.m.Write(0x6000, 0x00)
 		s.m.Write(0x6000, 0x01)
 	}
